@@ -9,6 +9,7 @@ CONSTANTS
   Dups = {"none", "first", "all"}
   Ords = {"created", "reversed", "interleaved"}
   Depth = 1
+  Winds = {"rated", "both_off"}
   Deficient = TRUE
 INVARIANT M_ObservableImpliesCount
 INVARIANT M_RedundancyMonotone
@@ -16,4 +17,5 @@ INVARIANT M_NoCriticalImpliesObservable
 INVARIANT M_LayoutOrderFree
 INVARIANT M_LayoutDupFree
 INVARIANT M_TableSound
+INVARIANT M_WindWellFormed
 PROPERTY M_ActionsKeepRequirement
